@@ -450,7 +450,7 @@ CHECKS["C19"] = dict(
     assumptions=["fork/wait4/kill served from a simulated process table; SIGCHLD raised synchronously at the next blocking point after a child "
                  "ended", "virtual clock", "h_popen has no schedule dimension (one thread); the spawn / reap / kill-helper layer it rests on (iv_wait.c) is run "
                  "with two loop threads in h_wait (same runs as C11, judged here by wait-lost and kill-after-reap)"],
-    deadline=dict(quick=60, thorough=120),
+    deadline=dict(quick=120, thorough=600),
 )
 
 ALLRULES = "all"
@@ -541,3 +541,27 @@ CHECKS["C18"] = dict(
     assumptions=LOOP_ASSUME + MT_ASSUME,
     deadline=dict(quick=300, thorough=1500),
 )
+
+# ---------------------------------------------------------------- thorough is a superset of quick
+# Every quick run that the thorough tier does not already contain (same harness, variant and arguments) is run first in
+# the thorough tier too, at its quick bound; the thorough deadline grows by the quick one so that the deeper runs keep
+# their time.  The quick runs finish by themselves well inside that allowance (DESIGN 9.7).
+def _norm(r):
+    return (r["harness"], r.get("variant", "asan"), " ".join(sorted(r["args"].split())))
+
+for _cid, _spec in CHECKS.items():
+    _have = set(_norm(t) for t in _spec["thorough"])
+    _extra = []
+    for _q in _spec["quick"]:
+        if _norm(_q) not in _have:
+            _e = dict(_q)
+            _e.pop("share", None)
+            _extra.append(_e)
+            _have.add(_norm(_q))
+    if _extra:
+        _qd = _spec["deadline"]["quick"]
+        # the prepended runs may use at most the quick allowance, split evenly over what is left of it
+        for _i, _e in enumerate(_extra):
+            _e["cap_s"] = _qd
+        _spec["thorough"] = _extra + _spec["thorough"]
+        _spec["deadline"] = dict(_spec["deadline"], thorough=_spec["deadline"]["thorough"] + _qd)
